@@ -34,22 +34,22 @@ Proof.
   { apply (forZ_inv3 (fun out => Zlen out = 9 * nval) (fun _ out => Zlen out = 9 * nval)); auto.
     intros i out Hi I1. acc3. set (cell := nth (Z.to_nat i) idxdown 0).
     rewrite chk64_ok' by (unfold MAX64, ntot in *; nia). cbn [bindr].
-    destruct ((cell <? 0) || (ntot <=? cell)) eqn:E; [cbn; auto|]. zb.
+    destruct ((cell <? 0) || (ntot <=? cell)) eqn:E; [unfold post3; auto|]. zb.
     destruct (nb_local_good ntot) as (L1 & L2).
     eapply post3_call; [apply neighbours_post; auto|].
     intros c nb (N1 & N2 & _).
     eapply (post3_sub _ _ _ (fun s => Zlen (up_out s) = 9 * nval /\ 0 <= up_k s <= 9)).
     - eapply post3_weaken.
       { apply (forZ_post3 (fun j s => Zlen (up_out s) = 9 * nval /\ 0 <= up_k s <= j) (fun _ => False)
-                 (fun _ s => Zlen (up_out s) = 9 * nval)); [lia|cbn; lia|].
+                 (fun _ s => Zlen (up_out s) = 9 * nval)); [lia|cbn [up_out up_k]; lia|].
         intros j s Hj (J1 & J2). acc3.
         assert (G : cgood ntot (nth (Z.to_nat j) nb 0)).
         { rewrite Forall_forall in N2. apply N2. apply nth_In. unfold Zlen in N1; lia. }
-        destruct (_ =? -1) eqn:E1; zb; [cbn; lia|].
+        destruct (_ =? -1) eqn:E1; zb; [unfold post3; lia|].
         destruct G as [G|G]; [lia|].
-        acc3. destruct (_ =? 0); [cbn; lia|].
-        acc3. destruct (_ =? _); [|cbn; lia].
-        acc3. cbn. rewrite Zlen_upd. lia. }
+        acc3. destruct (_ =? 0); [unfold post3; lia|].
+        acc3. destruct (_ =? _); [|unfold post3; lia].
+        acc3. unfold post3; cbn [up_out up_k]. rewrite Zlen_upd. lia. }
       + cbn beta. intros s [(J1 & J2)|[]]. split; auto.
       + intros ? [].
       + auto.
@@ -58,9 +58,9 @@ Proof.
       + eapply post3_weaken.
         { apply (forZ_inv3 (fun s' => Zlen (up_out s') = 9 * nval /\ up_k s' = up_k s)
                    (fun _ s => Zlen (up_out s) = 9 * nval)); [auto|].
-          intros j s' Hj (K1 & K2). acc3. cbn. rewrite Zlen_upd. auto. }
+          intros j s' Hj (K1 & K2). acc3. unfold post3; cbn [up_out up_k]. rewrite Zlen_upd. auto. }
         all: fin3. intros ? (? & _); auto.
-      + intros s' K1. cbn; auto. }
+      + intros s' K1. unfold post3; auto. }
   all: fin3.
 Qed.
 
@@ -116,7 +116,7 @@ Lemma down1_invalid nrows ncols code flowdir c d0 :
   - MAX64 - 1 <= nrows * ncols <= MAX64 -> ~ (0 <= c < nrows * ncols) ->
   down1 nrows ncols code flowdir c d0 = Next (1, d0).
 Proof.
-  intros Hg Hc. unfold down1, downstream, forZ. cbn [Z.sub Z.to_nat Pos.to_nat Pos.iter_op Nat.add for_loop].
+  intros Hg Hc. unfold down1, downstream, forZ. change (Z.to_nat (1 - 0)) with 1%nat. cbn [for_loop].
   rewrite (rd_ok "idxup" 0 [c] 0) by (cbn; lia). cbn [bindr].
   rewrite chk64_ok' by lia. cbn [bindr].
   replace ((nth (Z.to_nat 0) [c] 0 <? 0) || (nrows * ncols <=? nth (Z.to_nat 0) [c] 0)) with true.
@@ -148,6 +148,7 @@ Proof.
           assert (Hnc : 0 < ncols) by (unfold ntot in *; nia).
           destruct ((d <? 0) || (0 <? rc)); [cbn; auto|].
           destruct (d =? outlet); [cbn; auto|].
+          cbn [fp_up fp_down fp_ipath].
           destruct (getnxy_any ncols d ltac:(lia)) as (p1 & G1). rewrite G1. cbn [bindr].
           destruct (getnxy_any ncols (fp_up s) ltac:(lia)) as (p2 & G2). rewrite G2. cbn; auto.
         - rewrite down1_invalid by (auto; unfold MAX64, ntot in *; nia).
@@ -162,10 +163,10 @@ Proof.
         destruct (getnxy_any ncols (fp_down s) ltac:(lia)) as (p1 & G1). rewrite G1. cbn [bindR].
         destruct (getnxy_any ncols (fp_up s) ltac:(lia)) as (p2 & G2). rewrite G2. cbn [bindR]. eauto. }
       destruct Eg as (u & Eu). rewrite Eu. cbn [bindr].
-      acc3. acc3.
-      rewrite (mark_ok "flowpathlengths" _ (3 * i + 1)) by (rewrite ?Zlen_upd; lia). cbn [bindr].
-      rewrite (mark_ok "flowpathlengths" _ (3 * i + 2)) by (rewrite ?Zlen_upd; lia). cbn.
-      now rewrite !Zlen_upd. }
+      repeat acc3.
+      rewrite ?(mark_ok "flowpathlengths" _ (3 * i + 1)) by (rewrite ?Zlen_upd; lia). cbn [bindr].
+      rewrite ?(mark_ok "flowpathlengths" _ (3 * i + 2)) by (rewrite ?Zlen_upd; lia). cbn [bindr].
+      unfold post3. now rewrite !Zlen_upd. }
   all: fin3.
 Qed.
 
@@ -199,7 +200,6 @@ Proof.
         intros ivert u Hiv _. unfold zmod.
         destruct (nvertices =? 0) eqn:E; zb; [lia|]. cbn [bindr].
         assert (Hm := Z.rem_bound_pos ivert nvertices ltac:(lia) ltac:(lia)).
-        rewrite (chk32_ok (2 * Z.rem ivert nvertices)) by lia.
         unfold mul32. rewrite chk32_ok by lia. cbn [bindr].
         acc3. acc3. cbn; auto. }
       all: fin3.
@@ -208,3 +208,155 @@ Proof.
 Qed.
 
 End Inside.
+
+(* ================================================================== *)
+(* c_intersect: idxcells / weights hold one slot per cell of the intersecting grid
+   (grid.py allocates nrows*ncols of them); the kernel never needs more because the cells
+   it stores are pairwise distinct cells of that grid (pigeonhole). *)
+
+Lemma NoDup_map_inj_on {A B} (g : A -> B) l :
+  NoDup l -> (forall x y, In x l -> In y l -> g x = g y -> x = y) -> NoDup (map g l).
+Proof.
+  induction 1 as [|a l Ha Hl IH]; intros Hinj; simpl; constructor.
+  - intros Hin. apply in_map_iff in Hin. destruct Hin as (y & Ey & Hy).
+    assert (y = a) by (apply Hinj; simpl; auto). subst. contradiction.
+  - apply IH. intros x y Hx Hy. apply Hinj; simpl; auto.
+Qed.
+
+Lemma pigeon (f : nat -> Z) (j : nat) (n : Z) :
+  0 <= n ->
+  (forall k, (k < j)%nat -> 0 <= f k < n) ->
+  (forall k1 k2, (k1 < j)%nat -> (k2 < j)%nat -> f k1 = f k2 -> k1 = k2) ->
+  Z.of_nat j <= n.
+Proof.
+  intros Hn Hr Hinj.
+  set (l := map (fun k => Z.to_nat (f k)) (seq 0 j)).
+  assert (Hnd : NoDup l).
+  { apply NoDup_map_inj_on; [apply seq_NoDup|].
+    intros x y Hx Hy E. apply in_seq in Hx. apply in_seq in Hy.
+    apply Hinj; try lia. assert (Rx := Hr x ltac:(lia)). assert (Ry := Hr y ltac:(lia)). lia. }
+  assert (Hincl : incl l (seq 0 (Z.to_nat n))).
+  { intros x Hx. apply in_map_iff in Hx. destruct Hx as (k & Ek & Hk). apply in_seq in Hk.
+    apply in_seq. assert (R := Hr k ltac:(lia)). lia. }
+  assert (Hlen := NoDup_incl_length Hnd Hincl).
+  unfold l in Hlen. rewrite map_length, !seq_length in Hlen. lia.
+Qed.
+
+Section Intersect.
+Context {T : Type} (N : NumOps T).
+Hypothesis trunc_in_range : forall x n, 0 <= n <= MAX64 ->
+  nleb N (n0 N) x = true -> nltb N x (nofZ N n) = true ->
+  exists z, ntrunc N x = Some z /\ 0 <= z < n.
+
+Lemma c2c_point_range nrows ncols xll yll csz x y :
+  0 <= nrows <= MAX64 -> 0 <= ncols <= MAX64 -> nrows * ncols <= MAX64 ->
+  exists c, c2c_point N true nrows ncols xll yll csz x y = Ok c /\ (c = -1 \/ 0 <= c < nrows * ncols).
+Proof.
+  intros Hr Hc Hg. unfold c2c_point. cbn [andb].
+  set (fx := nfloorT N (ndiv N (nsub N x xll) csz)).
+  set (fy := nfloorT N (ndiv N (nsub N y yll) csz)).
+  destruct (nleb N (n0 N) fx && nltb N fx (nofZ N ncols) &&
+            nleb N (n0 N) fy && nltb N fy (nofZ N nrows)) eqn:E; cbn [negb]; [|eauto].
+  zb.
+  destruct (trunc_in_range fx ncols ltac:(lia)) as (zx & Ex & Bx); auto.
+  destruct (trunc_in_range fy nrows ltac:(lia)) as (zy & Ey & By); auto.
+  rewrite Ex, Ey. unfold cast64, in_int64.
+  replace ((-9223372036854775808 <=? zx) && (zx <=? 9223372036854775807)) with true
+    by (symmetry; apply andb_true_intro; split; apply Z.leb_le; unfold MAX64 in *; lia).
+  replace ((-9223372036854775808 <=? zy) && (zy <=? 9223372036854775807)) with true
+    by (symmetry; apply andb_true_intro; split; apply Z.leb_le; unfold MAX64 in *; lia).
+  cbn [bindR]. rewrite chk64_ok' by (unfold MAX64 in *; lia). cbn [bindR].
+  destruct ((zx <? 0) || (ncols <=? zx) || (nrows - 1 - zy <? 0) || (nrows <=? nrows - 1 - zy));
+    [eauto|].
+  rewrite chk64_ok' by (unfold MAX64 in *; nia). eexists; split; eauto. right. nia.
+Qed.
+
+Definition is_inv (ntot ncells : Z) (s : isst) : Prop :=
+  Zlen (is_cells s) = ncells /\ Zlen (is_w s) = ncells /\ 0 <= is_j s <= ncells /\
+  (forall k, 0 <= k < is_j s -> 0 <= nth (Z.to_nat k) (is_cells s) 0 < ntot) /\
+  (forall k1 k2, 0 <= k1 < is_j s -> 0 <= k2 < is_j s ->
+     nth (Z.to_nat k1) (is_cells s) 0 = nth (Z.to_nat k2) (is_cells s) 0 -> k1 = k2).
+
+Lemma intersect_safe : forall nrows ncols xll yll csz nval xy npoints idxcells weights,
+  0 <= nrows <= MAX64 -> 0 <= ncols <= MAX64 -> nrows * ncols <= MAX64 ->
+  Zlen xy = 2 * nval -> Zlen npoints = 1 ->
+  Zlen idxcells = nrows * ncols -> Zlen weights = nrows * ncols ->
+  safe (intersect N true nrows ncols xll yll csz nval xy npoints idxcells weights).
+Proof.
+  intros nrows ncols xll yll csz nval xy npoints idxcells weights Hr Hc Hg Hx Hn Hi Hw.
+  unfold intersect. set (ntot := nrows * ncols) in *.
+  apply (post3_safe _ (fun _ => True) (fun _ => True) (fun _ _ => True)).
+  eapply post3_call_gen with (P := fun _ _ => True).
+  2: { intros c s _. acc3. exact I. }
+  eapply post3_weaken.
+  { apply (forZ_inv3 (is_inv ntot ntot) (fun _ _ => True)).
+    { unfold is_inv; cbn. repeat split; auto; try lia; intros; lia. }
+    intros i s Hi2 Inv. destruct Inv as (I1 & I2 & I3 & I4 & I5).
+    acc3. acc3.
+    destruct (c2c_point_range nrows ncols xll yll csz (nth (Z.to_nat (2 * i)) xy (n0 N))
+                (nth (Z.to_nat (2 * i + 1)) xy (n0 N)) Hr Hc Hg) as (c & Ec & Rc).
+    rewrite Ec. cbn [bindr].
+    destruct (c <? 0) eqn:E0; zb; [unfold post3; unfold is_inv; auto 10|].
+    assert (Hcv : 0 <= c < ntot) by (destruct Rc; lia).
+    (* search among the cells already stored *)
+    eapply (post3_sub _ _ _ (fun found => is_inv ntot ntot (snd found) /\ is_j (snd found) = is_j s /\
+               is_cells (snd found) = is_cells s /\
+               (fst found = false -> forall k, 0 <= k < is_j s -> nth (Z.to_nat k) (is_cells s) 0 <> c))).
+    - eapply post3_weaken.
+      { apply (forZ_post3
+                 (fun k (found : bool * isst) => fst found = false /\ snd found = s /\
+                    forall k', 0 <= k' < k -> nth (Z.to_nat k') (is_cells s) 0 <> c)
+                 (fun found => fst found = true /\ is_inv ntot ntot (snd found) /\
+                    is_j (snd found) = is_j s /\ is_cells (snd found) = is_cells s)
+                 (fun _ _ => True)); [lia|cbn; repeat split; auto; intros; lia|].
+        intros k found Hk (F1 & F2 & F3). destruct found as [fnd s']. cbn [fst snd] in *. subst s' fnd.
+        acc3. destruct (_ =? c) eqn:E1; zb.
+        - acc3. unfold post3. cbn [fst snd is_j is_cells is_w]. repeat split; auto.
+          unfold is_inv; cbn [is_j is_cells is_w]. rewrite Zlen_upd. repeat split; auto; lia.
+        - unfold post3. cbn [fst snd]. repeat split; auto.
+          intros k' Hk'. destruct (Z.eq_dec k' k) as [->|Hne]; [auto|apply F3; lia]. }
+      + cbn beta. intros [fnd s'] [(F1 & F2 & F3)|(F1 & F2 & F3 & F4)]; cbn [fst snd] in *.
+        * subst. repeat split; auto. unfold is_inv; repeat split; auto.
+        * repeat split; auto. intros; congruence.
+      + intros ? [].
+      + auto.
+    - intros [fnd s'] (J1 & J2 & J3 & J4). cbn [fst snd] in *.
+      destruct fnd; [unfold post3; auto|].
+      specialize (J4 eq_refl). destruct J1 as (K1 & K2 & K3 & K4 & K5).
+      (* pigeonhole: a new distinct cell of the grid -> room is left *)
+      assert (Hroom : is_j s' + 1 <= ntot).
+      { set (f := fun k : nat => if (Z.of_nat k <? is_j s') then nth k (is_cells s') 0 else c).
+        assert (Hp := pigeon f (Z.to_nat (is_j s' + 1)) ntot).
+        rewrite Z2Nat.id in Hp by lia. apply Hp; [lia| |].
+        - intros k Hk. unfold f. destruct (Z.of_nat k <? is_j s') eqn:E2; zb; [|lia].
+          specialize (K4 (Z.of_nat k) ltac:(lia)). rewrite Nat2Z.id in K4. auto.
+        - intros k1 k2 Hk1 Hk2. unfold f.
+          destruct (Z.of_nat k1 <? is_j s') eqn:E2; destruct (Z.of_nat k2 <? is_j s') eqn:E3; zb; intros Ef.
+          + assert (Z.of_nat k1 = Z.of_nat k2); [|lia].
+            apply K5; try lia. now rewrite !Nat2Z.id.
+          + exfalso. rewrite J3, J2 in *. apply (J4 (Z.of_nat k1)); [lia|]. now rewrite Nat2Z.id.
+          + exfalso. rewrite J3, J2 in *. apply (J4 (Z.of_nat k2)); [lia|]. now rewrite Nat2Z.id.
+          + lia. }
+      acc3. acc3. unfold post3. unfold is_inv; cbn [is_j is_cells is_w]. rewrite !Zlen_upd.
+      repeat split; auto; try lia.
+      + intros k Hk. destruct (Z.eq_dec k (is_j s')) as [->|Hne].
+        * rewrite nth_upd_same by (unfold Zlen in K1; lia). auto.
+        * rewrite nth_upd_other by lia. apply K4; lia.
+      + intros k1 k2 Hk1 Hk2.
+        destruct (Z.eq_dec k1 (is_j s')) as [->|Hn1]; destruct (Z.eq_dec k2 (is_j s')) as [->|Hn2]; auto.
+        * rewrite nth_upd_same by (unfold Zlen in K1; lia). rewrite nth_upd_other by lia.
+          intros Ef. exfalso. rewrite J3, J2 in *. apply (J4 k2); [lia|auto].
+        * rewrite nth_upd_same by (unfold Zlen in K1; lia). rewrite nth_upd_other by lia.
+          intros Ef. exfalso. rewrite J3, J2 in *. apply (J4 k1); [lia|auto].
+        * rewrite !nth_upd_other by lia. apply K5; lia. }
+  all: fin3.
+Qed.
+
+End Intersect.
+
+Lemma intersect_safe_RN : forall nrows ncols xll yll csz nval xy npoints idxcells weights,
+  0 <= nrows <= MAX64 -> 0 <= ncols <= MAX64 -> nrows * ncols <= MAX64 ->
+  Zlen xy = 2 * nval -> Zlen npoints = 1 ->
+  Zlen idxcells = nrows * ncols -> Zlen weights = nrows * ncols ->
+  safe (intersect RN true nrows ncols xll yll csz nval xy npoints idxcells weights).
+Proof. exact (intersect_safe RN RN_trunc_in_range). Qed.
